@@ -47,7 +47,7 @@ MSelf == /\ Ev("SelfMetrics") /\ Adv
          /\ UNCHANGED <<capv, nok, nval, nio, dropEnded>>
 MSkip == /\ l <= N
          /\ Rec[l].ev \in {"AppStart", "AppEnd", "Close", "FlushReq", "FlushDone", "DropStart", "SinkDrop",
-                           "Quiesce", "Forget", "SinkClone", "Overflows", "SubInstalled"}
+                           "Quiesce", "Forget", "SinkClone", "Overflows", "SubInstalled", "BurstBegin", "BurstEnd"}
          /\ Adv /\ UNCHANGED <<capv, nok, nval, nio, dropEnded>>
 
 MNext_ == MReset \/ MNext \/ MReport \/ MFlush \/ MDropEnd \/ MSelf \/ MSkip
